@@ -91,27 +91,11 @@ theorem encodeOperands_ok_iff : ∀ (ws : List Nat) (as : List Int),
 
 /-! ### the result of `compileProg` -/
 
-theorem goodP_finishTail (lastOp : Nat) (pend : List Nat) :
-    GoodP (fun fn => Walk fn.insts 0 fn.insts.size) (finishTail lastOp pend) := by
-  unfold finishTail
-  refine GoodP.bind (P := fun _ => True) (by good) fun _ _ => ?_
-  refine GoodP.bind goodP_get_inv fun st hst => ?_
-  exact GoodP.bind good_headTable fun t _ => GoodP.pure hst.walk
-
-theorem goodP_finishFn : GoodP (fun fn => Walk fn.insts 0 fn.insts.size) finishFn := by
-  intro s hs
-  unfold finishFn
-  apply Sat.bind
-  apply Sat.get
-  have := scanFn_some (s.insts.size + 1) 0 0 [] hs.walk
-  cases hsc : scanFn s.insts (s.insts.size + 1) 0 0 [] with
-  | none => rw [hsc] at this; simp at this
-  | some r => exact goodP_finishTail r.1 r.2 s hs
-
-/-- what is proved of the returned bytecode: the main function's locals fit the frame and its
-    instruction stream decodes into complete instructions with known opcodes -/
+/-- what is proved of the returned bytecode: the locals of the main function and of every compiled
+    function in the constant pool fit the frame (≤ 256), and each of these instruction streams
+    decodes into complete instructions with known opcodes -/
 def WFMain (bc : Bytecode) : Prop :=
-  bc.main.numLocals ≤ maxNumLocals ∧ Walk bc.main.insts 0 bc.main.insts.size
+  bc.main.numLocals ≤ maxNumLocals ∧ Walk bc.main.insts 0 bc.main.insts.size ∧ ConstsOK bc.constants
 
 theorem goodP_compileProg (file : List Stmt) (hok : okSs file = true) : GoodP WFMain (compileProg file) := by
   have h1 := good_compileStmts file hok
@@ -121,6 +105,6 @@ theorem goodP_compileProg (file : List Stmt) (hok : okSs file = true) : GoodP WF
   split
   · exact GoodP.throw_bare
   · rename_i hle
-    refine GoodP.bind good_get fun st _ => GoodP.pure ⟨by simp only; omega, hfn⟩
+    refine GoodP.bind goodP_get_inv fun st hst => GoodP.pure ⟨by simp only; omega, hfn, hst.consts⟩
 
 end UgoVerif.Compile
